@@ -3,29 +3,96 @@
 
   `Sign` works on the table of contents through etree (`/xar/toc`, `//file/data`, `//data/offset`), `Open` / `Verify` read
   what it wrote through `encoding/xml` structs: two readers with different rules (first vs last child, `Text()` vs all
-  character data, untrimmed vs trimmed numbers).  `xar_sign_then_verify` shows that on regular documents they agree and that
-  the verifier then finds the signature, compares the hash of exactly the TOC bytes the signer wrote, and finds every
-  member's bytes at the shifted offset.  The hypotheses are what the xar tools produce; each one is needed:
-  `xar_verify_needs_archived_checksum` (a member without `<archived-checksum>` is skipped by `Sign` but refused by `Verify`:
-  listed finding FXAR1) and C03 `xar_front_member_lost` (members in front of the old signature area).
+  character data, untrimmed vs trimmed numbers).  `xar_sign_then_verify` (current tree) shows that on regular documents they
+  agree and that the verifier then finds the signature, compares the hash of exactly the TOC bytes the signer wrote, and
+  finds every member's bytes at the shifted offset.  Since fix 5d6eee4 the signer enforces the layout and checksum
+  conditions itself (`xar_sign_guards`; exactly when it succeeds: `xar_sign_ok_iff`; otherwise a clean error:
+  `xar_sign_refusal_is_clean`, `xar_sign_refuses_bad_layouts`), so they are no hypotheses any more; what remains is
+  stated in the theorem.
+  The tree before the fix: `xar_sign_then_verify_orig` needs them as hypotheses, and `xar_verify_needs_archived_checksum`
+  (a member without `<archived-checksum>` was skipped by `Sign` but is refused by `Verify`: finding FXAR1) and C03
+  `xar_front_member_lost` (members in front of the old signature area: FXAR3) show that they were needed.
 -/
 import Relic.Proofs.XarSign
 namespace Relic.Props.C01
 open Relic Relic.Xar
 
-/-- **xar_sign_then_verify.**  For every hash function `H` of the right output length, every hash kind the format has a
-    number for, every key (certificate texts that parse, any chain length, RSA or not), every classic signature `rsa` of
-    modulus length and every CMS blob `cms` that fits the reserved space and verifies over `H(compressed TOC)` (trailing
-    zero padding is ignored by the BER reader): let `Sign` succeed on input `f` — header parsed, TOC at offset 28 decoded to
-    document `t`, `/xar/toc` found, every `//file/data` with an `<archived-checksum>` hashed on the forward-only heap — where
-    * `t` is a regular document (`regularDoc`: one `<toc>`; per `<file>` at most one `<data>`; per `<data>` one `<offset>`,
-      at most one `<length>` / `<archived-checksum>`, numbers spelled as `ParseInt` accepts them) that `encoding/xml` accepts,
-    * every `<data>` of non-zero length has an `<archived-checksum>` (`hsum`),
-    * the old signature area (`origSigSize` = sum of the `<size>`s) lies inside the file and every member of non-zero length
-      begins behind it (`MembersOk`).
+/-- **xar_sign_guards.**  What a successful run of the current `Sign` (fix 5d6eee4) has established itself: sizes of the
+    header sane and the TOC no larger than declared; the old checksum / signature / x-signature areas valid
+    (`0 ≤ size ≤ 10^6`, `0 ≤ offset`, numbers readable) and lying back to back from heap offset 0 (`checkSigAreas`), their
+    total being the `origSigSize` it works with; every `//file/data` of non-zero length begins behind that area and has an
+    `<archived-checksum>`.  Contrapositive: an archive violating one of these is refused (classes toolarge / toc /
+    sigfield / sigtile / ffront / fnosum). -/
+theorem xar_sign_guards (C : Crypto) (E : Env) (f : Bytes) (hk : HK) (ki : KeyInfo) (so : SignOut)
+    (h : (signPlan E f hk ki).run C = .ok so) :
+    ∃ hd k0 t n p0 tks, parseHeader f = .ok (hd, k0) ∧ 0 ≤ hd.clen ∧ hd.clen ≤ 1000000 ∧ 0 ≤ hd.ulen ∧ hd.ulen ≤ 10000000 ∧
+      E.decode (region f 28 hd.clen) = some (t, n) ∧ (n : Int) ≤ hd.ulen ∧
+      prep E.num hk ki t = some p0 ∧ tocKids t = some tks ∧ checkSigAreas E.num tks = .ok so.origSig ∧ 0 ≤ so.origSig ∧
+      (∀ d ∈ dRefs E.num none p0.doc1, d.length ≠ 0 → so.origSig ≤ d.offset ∧ d.sum ≠ none) ∧
+      so = ⟨hk, adjust E.num true (w64 (p0.newSig - so.origSig)) false p0.doc1, so.origSig, p0.newSig,
+            w64 (28 + hd.clen + so.origSig), ki.rsaSize⟩ ∧
+      (checkAllStream (f.drop (28 + hd.clen.toNat)) 0 (sortRefs (eRefs E.num p0.doc1))).run C = .ok () := by
+  obtain ⟨hd, k0, t, n, p, hp, h1, h2, hdec, hfx, hso, hstream⟩ := signPlanG_ok true C E f hk ki so h
+  simp only [↓reduceIte] at hfx
+  obtain ⟨hprep, g1, g2, g3, hfc⟩ := hfx
+  obtain ⟨p0, tks, s, e1, e2, e3, rfl⟩ := prepFx_ok E.num hk ki t p hprep
+  subst hso
+  exact ⟨hd, k0, t, n, p0, tks, hp, g1, h1, g2, h2, hdec, g3, e1, e2, e3, checkSigAreas_nonneg E.num tks s e3,
+    frontCheck_none s _ hfc, rfl, hstream⟩
+
+/-- **xar_sign_ok_iff** (current tree).  `Sign` succeeds exactly when: the header parses, both TOC sizes lie in
+    `[0, 10^6]` / `[0, 10^7]`, the region behind byte 28 inflates (to at most the declared size) and parses, there is a
+    `/xar/toc`, the old signature elements are readable and tile the start of the heap (`prepFx`), no member with bytes
+    begins in front of the end of that area or lacks an `<archived-checksum>` (`frontCheck`), and every summed member
+    checks out on the forward-only heap.  In every other case it returns an error (`xar_sign_refusal_is_clean`). -/
+theorem xar_sign_ok_iff (C : Crypto) (E : Env) (f : Bytes) (hk : HK) (ki : KeyInfo) (so : SignOut) :
+    (signPlan E f hk ki).run C = .ok so ↔
+    ∃ hd k0 t n p, parseHeader f = .ok (hd, k0) ∧ 0 ≤ hd.clen ∧ hd.clen ≤ 1000000 ∧ 0 ≤ hd.ulen ∧ hd.ulen ≤ 10000000 ∧
+      E.decode (region f 28 hd.clen) = some (t, n) ∧ (n : Int) ≤ hd.ulen ∧ prepFx E.num hk ki t = .ok p ∧
+      frontCheck p.origSig (dRefs E.num none p.doc1) = none ∧
+      (checkAllStream (f.drop (28 + hd.clen.toNat)) 0 (sortRefs (eRefs E.num p.doc1))).run C = .ok () ∧
+      so = ⟨hk, p.tree E.num true, p.origSig, p.newSig, w64 (28 + hd.clen + p.origSig), ki.rsaSize⟩ := by
+  constructor
+  · intro h
+    obtain ⟨hd, k0, t, n, p, hp, h1, h2, hdec, hfx, hso, hstream⟩ := signPlanG_ok true C E f hk ki so h
+    simp only [↓reduceIte] at hfx
+    obtain ⟨hprep, g1, g2, g3, hfc⟩ := hfx
+    exact ⟨hd, k0, t, n, p, hp, g1, h1, g2, h2, hdec, g3, hprep, hfc, hstream, hso⟩
+  · rintro ⟨hd, k0, t, n, p, hp, g1, h1, g2, h2, hdec, g3, hprep, hfc, hstream, hso⟩
+    unfold signPlan signPlanG
+    have c1 : ¬ (hd.clen > 1000000 ∨ hd.ulen > 10000000) := by omega
+    have c2 : ¬ (hd.clen < 0 ∨ hd.ulen < 0) := by omega
+    have c3 : ¬ ((n : Int) > hd.ulen) := by omega
+    simp only [hp, c1, c2, c3, hdec, hprep, hfc, ↓reduceIte, Bool.true_and, decide_false, Bool.false_eq_true]
+    apply run_bind_of_ok C _ _ () so hstream
+    rw [hso]
+    rfl
+
+/-- **xar_sign_refusal_is_clean.**  `Sign` ends in ok or in an error, never in a panic, on both trees; when it does not end in
+    ok there is no `SignOut`, hence no patch (signers/xar returns the error before `SetBinPatch`): the input is not touched. -/
+theorem xar_sign_refusal_is_clean (fx : Bool) (C : Crypto) (E : Env) (f : Bytes) (hk : HK) (ki : KeyInfo) :
+    (∃ so, (signPlanG fx E f hk ki).run C = .ok so) ∨ ∃ e, (signPlanG fx E f hk ki).run C = .err e := by
+  cases hr : (signPlanG fx E f hk ki).run C with
+  | ok so => exact Or.inl ⟨so, rfl⟩
+  | err e => exact Or.inr ⟨e, rfl⟩
+  | panic s =>
+    have := runChecks_panic C _ _ s hr
+    rcases signPlanG_final fx E f hk ki with ⟨so, h⟩ | ⟨e, h⟩ <;> rw [h] at this <;> cases this
+  | diverge =>
+    have := runChecks_diverge C _ _ hr
+    rcases signPlanG_final fx E f hk ki with ⟨so, h⟩ | ⟨e, h⟩ <;> rw [h] at this <;> cases this
+
+/-- **xar_sign_then_verify** (current tree).  For every hash function `H` of the right output length, every hash kind the
+    format has a number for, every key (certificate texts that parse, any chain length, RSA or not), every classic signature
+    `rsa` of modulus length and every CMS blob `cms` that fits the reserved space and verifies over `H(compressed TOC)`
+    (trailing zero padding is ignored by the BER reader): let `Sign` succeed on input `f`, whose TOC at offset 28 decodes to a
+    regular document (`regularDoc`: one `<toc>`; per `<file>` at most one `<data>`; per `<data>` one `<offset>`, at most one
+    `<length>` / `<archived-checksum>`, numbers spelled as `ParseInt` accepts them) that `encoding/xml` accepts, and let the
+    patch be applicable (the old signature area ends inside the file, `h1`; otherwise `Apply` fails).
     Then `Open` + `Verify` (digests on) on the patched file succeed and name the requested hash: the checksum comparison is
     over the compressed TOC bytes the signer wrote (`open_layout`), the CMS check over their hash, and every member check
-    reads, at `newBase + offset + newSigSize − origSigSize`, the bytes `Sign` hashed at `base + offset` (`member_check_after`). -/
+    reads, at `newBase + offset + newSigSize − origSigSize`, the bytes `Sign` hashed at `base + offset` (`member_check_after`).
+    No hypothesis on checksums, on where members lie, or on the old signature elements: the signer tests those itself. -/
 theorem xar_sign_then_verify (C : Crypto) (E : Env) (hE : E.Laws) (hH : ∀ k b, (C.H k b).length = k.size)
     (f : Bytes) (hk : HK) (ki : KeyInfo) (hki : ki.small) (so : SignOut) (rsa cms body : Bytes)
     (hs : (signPlan E f hk ki).run C = .ok so)
@@ -36,16 +103,82 @@ theorem xar_sign_then_verify (C : Crypto) (E : Env) (hE : E.Laws) (hH : ∀ k b,
     (hd : Hdr) (k0 : HK) (t : Xml) (n : Nat) (x0 : XToc)
     (hp : parseHeader f = .ok (hd, k0)) (hdec : E.decode (region f 28 hd.clen) = some (t, n))
     (hreg : regularDoc E.num t = true) (hu : unmarshal E.num t = some x0)
-    (hsum : ∀ p, prep E.num hk ki t = some p → ∀ d ∈ dRefs E.num none p.doc1, d.length ≠ 0 → d.sum ≠ none)
-    (hm : MembersOk x0 so.origSig f.length) (h0 : 0 ≤ so.origSig) (hcl : 0 ≤ hd.clen)
-    (h1 : 28 + hd.clen + so.origSig ≤ f.length)
-    (hzl : (E.encode so.tree).1.length < 2 ^ 40) (hul : (E.encode so.tree).2 < 2 ^ 63) :
-    ∃ v, (verifyPlan E (written f so.origTotal body) false).run C = .ok v ∧ v.hk = hk :=
-  sign_then_verify_core C E hE hH f hk ki hki so rsa cms body hs hb hrsa hc1 hc2 hcms hd k0 t n x0 hp hdec hreg hu hsum hm h0 hcl h1
-    hzl hul
+    (h1 : 28 + hd.clen + so.origSig ≤ f.length) (hfl : f.length < 2 ^ 60)
+    (hzl : (E.encode so.tree).1.length < 2 ^ 40) (hul : (E.encode so.tree).2 ≤ 100000000) :
+    ∃ v, (verifyPlan E (written f so.origTotal body) false).run C = .ok v ∧ v.hk = hk := by
+  obtain ⟨hd', k0', t', n', p0, tks, hp', g1, _, _, _, hdec', _, hprep, _, _, g0, hmem, hso, hstream⟩ := xar_sign_guards C E f hk ki so hs
+  rw [hp] at hp'
+  simp only [Except.ok.injEq, Prod.mk.injEq] at hp'
+  obtain ⟨rfl, rfl⟩ := hp'
+  rw [hdec] at hdec'
+  simp only [Option.some.injEq, Prod.mk.injEq] at hdec'
+  obtain ⟨rfl, rfl⟩ := hdec'
+  generalize hsv : so.origSig = s at *
+  subst hso
+  simp only at hb hcms hzl hul ⊢
+  exact verify_written true C E hE hH f hk ki hki rsa cms body hd k0 t n x0 p0 s hp hprep hstream hb hrsa hc1 hc2 hcms hreg hu
+    hmem g0 g1 h1 hfl hzl hul
 
-/-- the statement the unchanged code does not meet: `Sign` succeeding on a document `encoding/xml` accepts implies that the
-    result verifies (no regularity, no `<archived-checksum>`, no layout hypothesis) -/
+/-- **xar_sign_then_verify_orig** (tree before 5d6eee4 / a62cce4): the same conclusion needed, as hypotheses, what the signer now
+    tests: every `//file/data` of non-zero length behind the old signature area and with an `<archived-checksum>`, a
+    non-negative `origSigSize`, a non-negative `CompressedSize`. -/
+theorem xar_sign_then_verify_orig (C : Crypto) (E : Env) (hE : E.Laws) (hH : ∀ k b, (C.H k b).length = k.size)
+    (f : Bytes) (hk : HK) (ki : KeyInfo) (hki : ki.small) (so : SignOut) (rsa cms body : Bytes)
+    (hs : (signPlanOrig E f hk ki).run C = .ok so)
+    (hb : newBytes C E so rsa cms = some body)
+    (hrsa : rsa.length = ki.rsaSize.getD 0)
+    (hc1 : ki.certTexts ≠ []) (hc2 : ∀ c ∈ ki.certTexts, E.certOk c = true)
+    (hcms : C.cmsOk (cms ++ zeros (so.newSig.toNat - (so.hk.size + rsa.length + cms.length))) (C.H hk (E.encode so.tree).1) = true)
+    (hd : Hdr) (k0 : HK) (t : Xml) (n : Nat) (x0 : XToc)
+    (hp : parseHeader f = .ok (hd, k0)) (hdec : E.decode (region f 28 hd.clen) = some (t, n))
+    (hreg : regularDoc E.num t = true) (hu : unmarshal E.num t = some x0)
+    (hmem : ∀ p, prep E.num hk ki t = some p → ∀ d ∈ dRefs E.num none p.doc1, d.length ≠ 0 → so.origSig ≤ d.offset ∧ d.sum ≠ none)
+    (h0 : 0 ≤ so.origSig) (hcl : 0 ≤ hd.clen)
+    (h1 : 28 + hd.clen + so.origSig ≤ f.length) (hfl : f.length < 2 ^ 60)
+    (hzl : (E.encode so.tree).1.length < 2 ^ 40) (hul : (E.encode so.tree).2 ≤ 100000000) :
+    ∃ v, (verifyPlanOrig E (written f so.origTotal body) false).run C = .ok v ∧ v.hk = hk := by
+  obtain ⟨hd', k0', t', n', p, hp', _, _, hdec', hprep, hso, hstream⟩ := signPlanG_ok false C E f hk ki so hs
+  simp only [Bool.false_eq_true, ↓reduceIte] at hprep
+  rw [hp] at hp'
+  simp only [Except.ok.injEq, Prod.mk.injEq] at hp'
+  obtain ⟨rfl, rfl⟩ := hp'
+  rw [hdec] at hdec'
+  simp only [Option.some.injEq, Prod.mk.injEq] at hdec'
+  obtain ⟨rfl, rfl⟩ := hdec'
+  subst hso
+  simp only [Prep.tree] at hb hcms hzl hul hmem h0 h1 ⊢
+  exact verify_written false C E hE hH f hk ki hki rsa cms body hd k0 t n x0 p p.origSig hp hprep hstream hb hrsa hc1 hc2 hcms
+    hreg hu (hmem p hprep) h0 hcl h1 hfl hzl hul
+
+/-- **xar_sign_refuses_bad_layouts** (current tree).  An archive with a `//file/data` of non-zero length that has no
+    `<archived-checksum>` (FXAR1), or that begins in front of the end of the old signature area however that area is
+    computed (FXAR3), is refused. -/
+theorem xar_sign_refuses_bad_layouts (C : Crypto) (E : Env) (f : Bytes) (hk : HK) (ki : KeyInfo)
+    (hd : Hdr) (k0 : HK) (t : Xml) (n : Nat) (p0 : Prep)
+    (hp : parseHeader f = .ok (hd, k0)) (hdec : E.decode (region f 28 hd.clen) = some (t, n)) (hprep : prep E.num hk ki t = some p0)
+    (hbad : ∃ d ∈ dRefs E.num none p0.doc1, d.length ≠ 0 ∧ (d.sum = none ∨ ∀ s, checkSigAreas E.num ((tocKids t).getD []) = .ok s → d.offset < s)) :
+    ∀ so, (signPlan E f hk ki).run C ≠ .ok so := by
+  intro so h
+  obtain ⟨hd', k0', t', n', p0', tks, hp', _, _, _, _, hdec', _, hprep', htk, hck, _, hmem, _, _⟩ := xar_sign_guards C E f hk ki so h
+  rw [hp] at hp'
+  simp only [Except.ok.injEq, Prod.mk.injEq] at hp'
+  obtain ⟨rfl, rfl⟩ := hp'
+  rw [hdec] at hdec'
+  simp only [Option.some.injEq, Prod.mk.injEq] at hdec'
+  obtain ⟨rfl, rfl⟩ := hdec'
+  rw [hprep] at hprep'
+  simp only [Option.some.injEq] at hprep'
+  subst hprep'
+  obtain ⟨d, hdm, hl, hor⟩ := hbad
+  obtain ⟨m1, m2⟩ := hmem d hdm hl
+  rcases hor with hn | hf
+  · exact m2 hn
+  · have := hf so.origSig (by rw [htk]; exact hck)
+    omega
+
+/-- the statement without `regularDoc`: not true on either tree — a `<file>` with two `<data>` children, or a number the two
+    readers read differently (`" 5"`), is shifted by etree where `encoding/xml` reads another element / another value
+    (exercised by the `dup-*` and `num-text` ops of the malformed stream, where sign → verify is compared with the model) -/
 def xar_sign_then_verify_full : Prop :=
   ∀ (C : Crypto) (E : Env), E.Laws → (∀ k b, (C.H k b).length = k.size) →
   ∀ (f : Bytes) (hk : HK) (ki : KeyInfo) (so : SignOut) (rsa cms body : Bytes),
@@ -71,10 +204,7 @@ example (N : Num) (h1 : (N.atoi "20").2 = true) (h2 : (N.atoi "31").2 = true) (h
     regularDoc N (xarSampleDoc "20" "31") = true := by
   simp [regularDoc, xarSampleDoc, splitFirst, regFileKids, regFile, regData, regDataKid, numOk, allTx, etext, count, named, h1, h2, h3, h4]
 
-example : MembersOk ⟨emptySig, none, none, [.mk { offset := 20, length := 11, hasData := true } []]⟩ 20 645 :=
-  ⟨by simp [flatXs, flatX], by simp [flatXs, flatX], by decide⟩
-
-/-! ### why `<archived-checksum>` is a hypothesis -/
+/-! ### why `<archived-checksum>` was a hypothesis (tree before 5d6eee4) -/
 
 /-- `checkFiles` on the signing side never looks at a `<data>` without `<archived-checksum>` … -/
 theorem xar_sign_skips_unsummed (d : DRef) (h : d.sum = none) : d.toRef? = none := by simp [DRef.toRef?, h]
